@@ -88,7 +88,14 @@ impl TryFrom<&[u8]> for Request {
         // SAFETY: This unwrap is safe since 3..7 gives 4 bytes which is a safe conversion to an
         // array of len 4. Technically the first of these bytes is `p2` the second parameter,
         // but in the base U2F spec this will always be 0. So this length is safe.
-        let data_len = u32::from_be_bytes(value[3..data_start].try_into().unwrap()) as usize;
+        //
+        // A version request carries no data and therefore no Lc: the three bytes after P2 are then
+        // the extended Le, the expected response length, which may hold any value.
+        let data_len = if matches!(ins, Command::Version) && value.len() == REQUEST_HEADER_LEN {
+            0
+        } else {
+            u32::from_be_bytes(value[3..data_start].try_into().unwrap()) as usize
+        };
         let data_end = data_start
             .checked_add(data_len)
             .ok_or(ResponseStatusWords::WrongLength)?;
